@@ -287,7 +287,7 @@ func VerifC15Options() {
 	var expectFiles []string
 	for i := 0; i < k; i++ {
 		id := string([]byte{byte('a' + i)})
-		switch nd.Choose(4) {
+		switch nd.Choose(5) {
 		case 0: // config file
 			path := vCfgDir + id
 			if !nd.Symbolic() {
@@ -307,6 +307,16 @@ func VerifC15Options() {
 			expectFiles = nil
 		case 3: // a loader with an empty payload is added
 			AddConfigLoader(loader.NewRawLoader(nil))(s)
+		case 4: // replace by a list in which a file comes after a plain loader
+			path := vCfgDir + id
+			if !nd.Symbolic() {
+				os.WriteFile(path, []byte("F:"+path), 0o644)
+				defer os.Remove(path)
+			}
+			SetConfigLoader(loader.NewRawLoader([]byte("S"+id)), loader.NewFileLoader(path))(s)
+			expectOther = []string{"S" + id}
+			expectFiles = []string{"F:" + path}
+			nd.Cover("file listed after a plain loader")
 		}
 	}
 	err := s.Configure.Initialize()
